@@ -610,7 +610,13 @@ func c07WSetup(prm c07WParams) func(c *fw.Ctx, name string) explore.Setup {
 					}
 					return conn.Write(bg, websocket.MessageBinary, p)
 				}
-				w.GoHarness("writerA", true, func() { write(a, bytes.Repeat([]byte{'A'}, sizeA)) })
+				payloadA := bytes.Repeat([]byte{'A'}, sizeA)
+				if k.Flate {
+					// bytes that do not compress: the deflate output is larger than the write
+					// buffer, so A's writer parks in the transport inside its compressor
+					payloadA = c07Noise
+				}
+				w.GoHarness("writerA", true, func() { write(a, payloadA) })
 				ctx, cancel := vctx.WithCancel(bg)
 				cancel() // a context that is already over: the call gives up as soon as it has to wait for a lock
 				if !prm.Sep {
@@ -674,12 +680,26 @@ func c07WSetup(prm c07WParams) func(c *fw.Ctx, name string) explore.Setup {
 						return
 					}
 				}
-				res := frame.Validate(pb.Out, frame.StreamRules{SenderIsClient: k.Client != prm.Cross})
+				res := frame.Validate(pb.Out, frame.StreamRules{SenderIsClient: k.Client != prm.Cross, Deflate: k.Flate})
 				for _, v := range res.Violations {
 					violate(c, w, name, P+"/foreign-bytes-on-the-wire/"+role, fmt.Sprintf("connection B's transport carries a malformed stream (%v): bytes of another connection were flushed into it", v))
 					return
 				}
-				for _, m := range res.Messages {
+				kb := k
+				if prm.Cross {
+					kb.Client = !k.Client
+				}
+				inf := &deflate.Inflater{NoContextTakeover: kb.writerNoTakeover()}
+				for i, m := range res.Messages {
+					if m.Compressed {
+						pl, err := inf.Message(m.Payload)
+						if err != nil {
+							violate(c, w, name, P+"/foreign-bytes-on-the-wire/"+role, fmt.Sprintf("connection B's message %d does not inflate (%v): its compressor is shared with another connection", i, err))
+							return
+						}
+						res.Messages[i].Payload = pl
+						m.Payload = pl
+					}
 					for _, by := range m.Payload {
 						if by != 'B' {
 							violate(c, w, name, P+"/foreign-bytes-on-the-wire/"+role, fmt.Sprintf("connection B's transport carries a message containing byte %q; B only ever wrote 'B'", by))
@@ -748,7 +768,12 @@ func c05PoolScenarios(tier string) []scenario {
 func c07CrossScenarios(prop string) func(tier string) []scenario {
 	return func(tier string) []scenario {
 		var scs []scenario
-		for _, k := range []connCfg{{Client: true}, {Client: false}} {
+		ks := []connCfg{{Client: true}, {Client: false}}
+		if prop == "C14" {
+			// compressed connections: the pooled compressor instead of the pooled write buffer
+			ks = []connCfg{{Client: false, Flate: true, Thr: 1}, {Client: true, Flate: true, Thr: 1, CNCT: true, SNCT: true}}
+		}
+		for _, k := range ks {
 			prm := c07WParams{K: k, Prop: prop}
 			pw := explore.Config{P: 1, Horizon: 60e9}
 			if tier == "thorough" {
@@ -798,9 +823,12 @@ func c07Scenarios(tier string) []scenario {
 		}
 	}
 	gen(nil, "AB")
-	for _, k := range []connCfg{{Client: true}, {Client: false}} {
+	for _, k := range []connCfg{{Client: true}, {Client: false}, {Client: false, Flate: true, Thr: 1}, {Client: true, Flate: true, Thr: 1, CNCT: true, SNCT: true}} {
 		prm := c07WParams{K: k}
 		pw := explore.Config{P: 2, Horizon: 60e9}
+		if k.Flate {
+			pw.P = 1
+		}
 		if tier == "thorough" {
 			pw.P = 2
 		}
@@ -893,7 +921,7 @@ func c07RaceScenarios(tier string) []scenario {
 }
 
 func init() {
-	for _, prop := range []string{"C01", "C02", "C05", "C16", "C18"} {
+	for _, prop := range []string{"C01", "C02", "C05", "C14", "C16", "C18"} {
 		scs := c07CrossScenarios(prop)
 		fw.Register(fw.Part{Prop: prop, Name: "s.xconn",
 			Units:  func(tier string) []fw.Unit { return scenarioUnits(scs(tier)) },
